@@ -11,7 +11,7 @@ THEOREMS = ["C07_roundtrip_refuted", "C07_roundtrip_outside_known", "C07_roundtr
             "C07_known_classes_fail", "C07_tiers_agree_refuted", "C07_tiers_agree_outside_known",
             "C07_zone_pointwise", "C07_zone_roundtrip", "C07_compaction_fixpoint", "C07_string_retyped_characterised",
             "C07_projection", "C07_projection_example", "C07_return_mislabel_refuted",
-            "C07_memtable_flow_exact_outside_known"]
+            "C07_memtable_flow_exact_outside_known", "C07_sink_agrees"]
 RULE = ("function level: JSON texts / scalars / cell texts through the real STORE parser, ScalarValue::from / to_json, "
         "WalEntry serde round trip, EventBuilder and real column blocks (ColumnGroupBuilder -> decoder -> both "
         "materialisations -> values_to_scalar); engine level: one schema with every field type (string, int, u64, float, "
@@ -324,7 +324,7 @@ def fn_cases(rng, tier):
         d.update(kw)
         out.append(d)
 
-    n = 1 if tier == "quick" else 40
+    n = 1 if tier == "quick" else 25
     strings = list(NASTY)
     for _ in range(300 * n):
         strings.append(gen_string(rng))
@@ -405,7 +405,7 @@ CFGS = [
 
 def engine_cases(rng, tier):
     out = []
-    n = 6 if tier == "quick" else 400
+    n = 8 if tier == "quick" else 300
     for h in range(n):
         cfg, mode = CFGS[h % len(CFGS)] if h < 8 else rng.choice(CFGS)
         cap = cfg["fill_factor"] * cfg["event_per_zone"]
@@ -726,8 +726,17 @@ def run_sides(cases_, model_ok):
     for k, i in enumerate(fn_idx):
         impl[i], model[i] = fi[k], fm[k]
     if en_idx:
+        def run_retry(c):
+            r = run_history(c)
+            if r.get("crashed") and not r.get("obs"):
+                # the engine child did not come up (overloaded machine): one more attempt
+                r2 = run_history(c)
+                r2.setdefault("notes", []).append("second attempt after: " + "; ".join(r.get("notes", [])))
+                return r2
+            return r
+
         with concurrent.futures.ThreadPoolExecutor(max_workers=6) as ex:
-            rs = list(ex.map(run_history, [cases_[i] for i in en_idx]))
+            rs = list(ex.map(run_retry, [cases_[i] for i in en_idx]))
         want = {}
         for i, r in zip(en_idx, rs):
             r["cells"] = cell_checks(cases_[i], r)
@@ -972,6 +981,9 @@ def oracle(c, impl):
 
 def classify(c, impl, model=None):
     if c.get("line"):
+        # a function-level failure belongs to its class only when the model predicts exactly this output
+        if impl in ("PANIC", "ABORT") or (model is not None and model != impl):
+            return None
         return FN_CLASS.get(c.get("kind"))
     f = pick_failure(c, impl)
     if not f:
